@@ -132,6 +132,10 @@ def run_groups(groups, envs, exe, wd, checks, res, extra):
                     cid2 = cid + ".O"
                     cases.append((cid2, root, "O", order, bytes(data).hex()))
                     meta[cid2] = (g, vec, order, bytes(data))
+                    if vi == 0 and _has_byte_sizer(env):
+                        cid3 = cid + ".P"
+                        cases.append((cid3, root, "P", order, bytes(data).hex()))
+                        meta[cid3] = (g, vec, order, bytes(data))
     if not cases:
         return
     import time as _t
@@ -163,9 +167,33 @@ def _n(res, key):
     res["n_checked"][key] = res["n_checked"].get(key, 0) + 1
 
 
+def _has_byte_sizer(env):
+    for d in env.defs:
+        if d["k"] == "struct":
+            for m in d["ms"]:
+                if m["f"] == "ext" and env.base(d["ms"][m["c"] - 1]["t"])["w"] == 1:
+                    return True
+    return False
+
+
 def judge(cid, r, env, g, vec, order, data, checks, res):
     is_fault = "inp" in vec
     op_overfill = cid.endswith(".O")
+    if cid.endswith(".P"):
+        # vectors grown beyond what their one-byte sizer can count: the size equalities must still hold
+        if "gbs" not in checks or "skipped" in r:
+            return
+        _n(res, "gbs_outgrown")
+        if "crash" in r:
+            _fail(res, "gbs", env, g, vec, "encode after growing the vectors of one-byte sizers to 256 elements failed: %s; %s"
+                  % (r["crash"], _first_report(r["stderr"])), case=cid, order=order, outgrown=True)
+        elif r["ok"] == "1":
+            gbs, ptr, nvec = int(r["gbs"]), int(r["ptr"]), int(r["vec"])
+            if not (gbs == ptr == nvec):
+                _fail(res, "gbs", env, g, vec, "vectors of one-byte sizers grown to 256 elements: get_byte_size()=%d, "
+                      "encode(void*) wrote %d, encode() returned %d bytes" % (gbs, ptr, nvec), case=cid, order=order,
+                      outgrown=True)
+        return
     if ".Z." in cid:
         # default-constructed object: only the size equalities apply
         if "crash" in r:
